@@ -5,19 +5,53 @@
   Library logic transcribed:
     * `Transport.request`: at most two attempts; the second only after a disconnect-class error
       (`RemoteDisconnected`, `ECONNRESET`, `ECONNABORTED`, `EPIPE`) of the first;
-    * `single_request`: any exception ⇒ `self.close()` (cache dropped) and re-raise; status 200 ⇒ parse the
-      body; other status ⇒ drain the body *when a Content-Length is announced*, raise `TransportError`;
+    * `single_request`: any exception ⇒ `self.close()` (cache dropped) and re-raise; status `== 200` ⇒ parse the
+      body; any other status ⇒ raise `TransportError(url, status, …)` after draining the body *when a
+      Content-Length is announced* (`Lib.drain`; `Lib.closeNoLen`: a variant of the code that closes the connection
+      when none is announced — the theorems hold for every value of both switches, the harness passes the values
+      extracted from the source);
     * `_run_request`: empty body ⇒ `None` (then `None["result"]` raises `TypeError` in `_request`);
       otherwise `loads` (non-JSON ⇒ `ValueError`) and `check_for_errors`.
   Environment model (http.client + peer + kernel), assumed and differentially tested against real sockets:
-    * a connection has an inbound queue of complete replies (tagged with the token of the request the peer
-      answered), a `stale` flag (the peer has closed its end) and a `pending` flag (http.client still holds an
-      unread response and will refuse the next `getresponse` with `ResponseNotReady`);
+    * replies are framed by Content-Length; what a response's buffered reader has read ahead beyond its own
+      reply is discarded when the response is closed (so surplus bytes that arrive *together with* a reply are
+      harmless), while bytes that arrive *after* the response was consumed stay unread on the connection
+      (`Conn.inbound`) and are what the next `getresponse` parses first;
+    * a `stale` flag (the peer has closed its end: the next use fails with a disconnect-class error while
+      sending) and a `pending` flag (http.client still holds an unread response and refuses the next
+      `getresponse` with `ResponseNotReady`);
     * the peer consumes one behaviour of the call's script for every request it actually reads.
 -/
 import JRV.Model.Json
 
 namespace JRV.Transport
+
+/-- The only status `single_request` treats as success: `if response.status == 200`. -/
+def successStatus : Nat := 200
+
+/-- Statuses whose reply may carry a body and is not a success: not 200, and not one of those for which
+    http.client ignores the body (1xx, 204, 304). -/
+def bodyStatus (n : Nat) : Bool := n != successStatus && n != 204 && n != 304 && decide (200 ≤ n)
+
+/-- A non-200 status code of a reply with a body (201, 202, 206, 3xx, 4xx, 5xx, …). -/
+structure ErrCode where
+  n : Nat
+  h : bodyStatus n = true
+deriving DecidableEq, Repr
+
+/-- What the body of a non-200 reply looks like.  The client must not care. -/
+inductive Body where
+  | text       -- not JSON
+  | own        -- a well-formed JSON-RPC result for the token of this very call
+  | foreign    -- a well-formed JSON-RPC result for another token
+  | errObj     -- a JSON-RPC error object
+deriving Repr, DecidableEq
+
+/-- The two places where harmless variants of `single_request` differ (read from the source by the extractor). -/
+structure Lib where
+  drain : Bool        -- `if response.getheader("content-length", 0): response.read()`
+  closeNoLen : Bool   -- `else: self.close()` (absent in the code as it stands)
+deriving Repr, DecidableEq
 
 /-- The fault alphabet of the scripted peer. -/
 inductive Beh where
@@ -26,18 +60,38 @@ inductive Beh where
   | down                   -- peer not listening and all its connections closed: connect is refused
   | closeBeforeReply       -- request read, connection closed without a reply
   | reset                  -- request read, connection reset
-  | statusLen (code : Nat) -- non-200 status with Content-Length and a body, keep-alive
-  | statusNoLenClose (code : Nat)  -- non-200 status without length, then close
-  | bodiless (code : Nat)  -- bodiless status (e.g. 204) without a length header, keep-alive
+  | status (code : ErrCode) (len : Bool) (body : Body)
+                           -- non-200 status with a body; `len`: Content-Length announced and keep-alive,
+                           -- otherwise no length header and the peer closes
+  | bodiless (notModified : Bool) (len : Bool)
+                           -- 204 (or 304) without a body, keep-alive; `len`: `Content-Length: 0` announced or no header
   | truncated              -- 200 with a Content-Length larger than the bytes sent, then close
   | empty200               -- 200 with an empty body
   | nonJson200             -- 200 with a body that is not JSON
+  | okExtraNow (k : Nat)   -- 200 + own result and, in the same segment, an unsolicited complete reply carrying token k
+  | okThenLate (k : Nat)   -- 200 + own result; an unsolicited complete reply (token k) arrives after the client
+                           -- has consumed its own: NOT a fault of the property's alphabet (the peer breaks HTTP framing)
+  | statusLongNow (code : ErrCode)
+                           -- non-200, body longer than the announced Content-Length, all in one segment
+  | statusLongLate (code : ErrCode) (reply : Option Nat)
+                           -- the same, the surplus bytes arrive late; optionally followed by a complete reply (token)
+deriving Repr, DecidableEq
+
+/-- The status of a bodiless reply. -/
+def bodilessCode (notModified : Bool) : Nat := if notModified then 304 else 204
+
+/-- Unread data sitting on a connection when a call begins. -/
+inductive Item where
+  | junk                   -- bytes that do not start an HTTP status line
+  | reply (tok : Nat)      -- a complete, well-formed 200 reply carrying the result `tok`
 deriving Repr, DecidableEq
 
 structure Conn where
   stale : Bool := false
   pending : Bool := false
-  inbound : List Nat := []      -- tokens of complete, unread replies
+  inbound : List Item := []     -- unread data, oldest first
+  desync : Bool := false        -- an unsolicited reply has been consumed instead of an answer: from here on what
+                                -- the client reads depends on kernel timing; the model declines ("Unmodelled")
 deriving Repr, DecidableEq
 
 abbrev Cache := Option Conn
@@ -54,69 +108,109 @@ inductive Att where
   | retryable                        -- disconnect-class error: cache dropped, `request` may try again
 deriving Repr, DecidableEq
 
+/-- After a non-success reply that announces a length: drained (reusable) or left unread. -/
+def afterLength (lib : Lib) (c : Conn) : Cache :=
+  if lib.drain then some c else some { c with pending := true }
+
 /-- One request/response exchange on a usable connection `c`: the peer reads the request carrying
     `tok` and applies behaviour `b`; the client then processes what it receives. -/
-def exchange (c : Conn) (tok : Nat) (b : Beh) : Att :=
-  match b with
-  | .okKeep =>
-    match c.inbound ++ [tok] with
-    | t :: rest => .done (.result t) (some { c with inbound := rest })
-    | [] => .retryable
-  | .okClose =>
-    match c.inbound ++ [tok] with
-    | t :: rest => .done (.result t) (some { c with inbound := rest, stale := true })
-    | [] => .retryable
-  | .down => .retryable
-  | .closeBeforeReply => .retryable
-  | .reset => .retryable
-  | .statusLen code => .done (.transportError code) (some c)          -- body drained: reusable
-  | .statusNoLenClose code => .done (.transportError code) none       -- http.client closes it (will_close)
-  | .bodiless code => .done (.transportError code) (some { c with pending := true })
-  -- the partial body is handed to the JSON parser (read(amt) does not raise IncompleteRead): ValueError
-  -- after a normally completed single_request; the connection stays cached although the peer closed it
-  | .truncated => .done (.other "decode") (some { c with stale := true })
-  | .empty200 => .done (.other "empty") (some c)                      -- TypeError after a clean exchange
-  | .nonJson200 => .done (.other "decode") (some c)                   -- ValueError after a clean exchange
+def exchange (lib : Lib) (c : Conn) (tok : Nat) (b : Beh) : Att :=
+  match c.inbound with
+  | .junk :: _ =>
+    -- the unread bytes are glued in front of whatever comes next: BadStatusLine, an unexpected error ⇒ close();
+    -- everything else that was unread goes with the connection
+    .done (.other "http-garbage") none
+  | .reply t :: rest =>
+    -- a complete reply is waiting: it is taken for the answer (no check of the reply id); the real answer stays behind
+    .done (.result t) (some { c with inbound := rest, desync := true })
+  | [] =>
+    match b with
+    | .okKeep => .done (.result tok) (some c)
+    | .okClose => .done (.result tok) (some { c with stale := true })
+    | .down => .retryable
+    | .closeBeforeReply => .retryable
+    | .reset => .retryable
+    | .status code true _ => .done (.transportError code.n) (afterLength lib c)
+    | .status code false _ => .done (.transportError code.n) none       -- http.client closes it (will_close)
+    | .bodiless nm true => .done (.transportError (bodilessCode nm)) (afterLength lib c)  -- read() of 0 bytes completes it
+    | .bodiless nm false =>
+      .done (.transportError (bodilessCode nm)) (if lib.closeNoLen then none else some { c with pending := true })
+    -- the partial body is handed to the JSON parser (read(amt) does not raise IncompleteRead): ValueError
+    -- after a normally completed single_request; the connection stays cached although the peer closed it
+    | .truncated => .done (.other "decode") (some { c with stale := true })
+    | .empty200 => .done (.other "empty") (some c)                      -- TypeError after a clean exchange
+    | .nonJson200 => .done (.other "decode") (some c)                   -- ValueError after a clean exchange
+    | .okExtraNow _ => .done (.result tok) (some c)                     -- read ahead, discarded with the response
+    | .okThenLate k => .done (.result tok) (some { c with inbound := [.reply k] })
+    | .statusLongNow code => .done (.transportError code.n) (afterLength lib c)
+    | .statusLongLate code r =>
+      .done (.transportError code.n)
+        ((afterLength lib c).map fun c' => { c' with inbound := .junk :: (r.map Item.reply).toList })
 
 /-- `single_request` on the cached connection (or a new one). Returns the attempt's result and the
     behaviours the peer has not consumed. -/
-def attempt (cache : Cache) (tok : Nat) (bs : List Beh) : Att × List Beh :=
+def attempt (lib : Lib) (cache : Cache) (tok : Nat) (bs : List Beh) : Att × List Beh :=
   match cache with
   | some c =>
+    if c.desync then (.done (.other "Unmodelled") (some c), [])         -- declined, see `Conn.desync`
     -- a dead socket is noticed while sending (headers and body are two sends), before `getresponse`
-    if c.stale then (.retryable, bs)                                   -- the peer never sees the request
-    else if c.pending then (.done (.other "http-state") none, [])     -- ResponseNotReady → close()
+    else if c.stale then (.retryable, bs)                               -- the peer never sees the request
+    else if c.pending then (.done (.other "http-state") none, [])      -- ResponseNotReady → close()
     else match bs with
-      | b :: rest => (exchange c tok b, rest)
-      | [] => (exchange c tok .okKeep, [])
+      | b :: rest => (exchange lib c tok b, rest)
+      | [] => (exchange lib c tok .okKeep, [])
   | none =>
     match bs with
     | .down :: rest => (.done (.other "refused") none, rest)
-    | b :: rest => (exchange {} tok b, rest)
-    | [] => (exchange {} tok .okKeep, [])
+    | b :: rest => (exchange lib {} tok b, rest)
+    | [] => (exchange lib {} tok .okKeep, [])
 
 /-- `Transport.request`: the call with token `tok`, the peer following script `bs` for this call. -/
-def call (cache : Cache) (tok : Nat) (bs : List Beh) : Outcome × Cache :=
+def call (lib : Lib) (cache : Cache) (tok : Nat) (bs : List Beh) : Outcome × Cache :=
   -- a peer that is down has also dropped its connections
   let cache := if bs.head? = some .down then cache.map (fun c => { c with stale := true }) else cache
-  match attempt cache tok bs with
+  match attempt lib cache tok bs with
   | (.done o c, _) => (o, c)
   | (.retryable, bs') =>
-    match attempt none tok bs' with
+    match attempt lib none tok bs' with
     | (.done o c, _) => (o, c)
     | (.retryable, _) => (.other "disconnected", none)
 
 /-- A session: calls numbered from `tok`, each with its script. -/
-def session (cache : Cache) (tok : Nat) : List (List Beh) → List Outcome × Cache
+def session (lib : Lib) (cache : Cache) (tok : Nat) : List (List Beh) → List Outcome × Cache
   | [] => ([], cache)
   | bs :: rest =>
-    let (o, c) := call cache tok bs
-    let (os, c') := session c (tok + 1) rest
+    let (o, c) := call lib cache tok bs
+    let (os, c') := session lib c (tok + 1) rest
     (o :: os, c')
 
-/-- Cache states the library can be in between calls: no unread data ever stays behind. -/
-def Cache.clean : Cache → Bool
+/-- Behaviours of a peer that respects HTTP framing at least so far that it never leaves a *complete
+    unsolicited reply* at the head of the unread data: everything but `okThenLate`. -/
+def Beh.framed : Beh → Bool
+  | .okThenLate _ => false
+  | _ => true
+
+/-- Healthy exchanges. -/
+def Beh.healthy : Beh → Bool
+  | .okKeep => true
+  | .okClose => true
+  | _ => false
+
+/-- Connection states in which no foreign reply can be taken for an answer: nothing unread, or unread bytes that
+    cannot be parsed as a reply (they make the next use fail and the library drop the connection). -/
+def Conn.safe (c : Conn) : Bool :=
+  !c.desync && (match c.inbound with
+    | [] => true
+    | .junk :: _ => true
+    | .reply _ :: _ => false)
+
+def Cache.safe : Cache → Bool
   | none => true
-  | some c => c.inbound.isEmpty
+  | some c => c.safe
+
+/-- Connection states from which a healthy exchange succeeds at once. -/
+def Cache.good : Cache → Bool
+  | none => true
+  | some c => !c.desync && c.inbound.isEmpty && !c.pending
 
 end JRV.Transport
